@@ -1231,6 +1231,8 @@ class YearMonthDuration(Duration):
     def __mul__(self, other: object) -> 'YearMonthDuration':
         if not isinstance(other, (float, int, Decimal)):
             raise TypeError("cannot multiply a %r by %r" % (type(self), type(other)))
+        elif math.isinf(other):
+            raise OverflowError("cannot multiply a %r by an infinite value" % type(self))
         return YearMonthDuration(months=int(round_number(self.months * other)))
 
     def __truediv__(self, other: object) -> Union[float, 'YearMonthDuration']:
@@ -1295,6 +1297,8 @@ class DayTimeDuration(Duration):
         if isinstance(other, (float, int, Decimal)):
             if math.isnan(other):
                 raise ValueError("cannot multiply a %r by NaN" % type(self))
+            elif math.isinf(other):
+                raise OverflowError("cannot multiply a %r by an infinite value" % type(self))
 
             if isinstance(other, (int, Decimal)):
                 seconds = self.seconds * other
@@ -1307,6 +1311,8 @@ class DayTimeDuration(Duration):
 
     def __truediv__(self, other: object) -> Union[Decimal, 'DayTimeDuration']:
         if isinstance(other, self.__class__):
+            if not other.seconds:
+                raise ZeroDivisionError("cannot divide a %r by a zero duration" % type(self))
             return self.seconds / other.seconds
         elif isinstance(other, (float, int, Decimal)):
             if math.isnan(other):
